@@ -3,6 +3,7 @@ package vc
 import (
 	"fmt"
 	"go/types"
+	"strings"
 
 	"golang.org/x/tools/go/ssa"
 )
@@ -11,8 +12,8 @@ import (
 
 func (f *FnVC) mapKeySort(kt types.Type) string {
 	s := f.TE.Sort(kt)
-	if s == SStr {
-		return SInt
+	if s == SStr || strings.HasPrefix(s, "(Array ") {
+		return SInt // canonical key ids (strings: by content; arrays: injective id)
 	}
 	return s
 }
@@ -24,6 +25,15 @@ func (f *FnVC) mapKey(k Val) Term {
 			f.SC.Assert("(forall ((a Str) (b Str)) (! (= (= (strid a) (strid b)) (streq a b)) :pattern ((strid a) (strid b))))")
 		}
 		return app("strid", SInt, k.T)
+	}
+	if strings.HasPrefix(k.T.Sort, "(Array ") {
+		// array-valued keys (e.g. [16]byte UUIDs): an injective id, because some solvers reject arrays indexed by arrays
+		fn := "kid_" + sortKey(k.T.Sort)
+		if !f.SC.HasFun(fn) {
+			f.SC.DeclareFun(fn, []string{k.T.Sort}, SInt)
+			f.SC.Assert(fmt.Sprintf("(forall ((a %s) (b %s)) (! (=> (= (%s a) (%s b)) (= a b)) :pattern ((%s a) (%s b))))", k.T.Sort, k.T.Sort, fn, fn, fn, fn))
+		}
+		return app(fn, SInt, k.T)
 	}
 	return k.T
 }
@@ -97,6 +107,9 @@ func (f *FnVC) mapUpdate(st *State, x *ssa.MapUpdate) {
 	// contract hook: `at-call mapupdate: assert ...` with arg0 = map, arg1 = key, arg2 = value
 	if f.Ct != nil && len(f.Ct.AtCalls) > 0 {
 		f.noteSiteRaw(st, "mapupdate", []Val{m, k, v}, x.Pos())
+		if fn := sourceFieldName(x.Map); fn != "" {
+			f.noteSiteRaw(st, "mapupdate:"+fn, []Val{m, k, v}, x.Pos())
+		}
 	}
 	f.mapStore(st, m.T, mt, f.mapKey(k), &v.T)
 	// execution continues past an assignment to a map entry only if the map was not nil (Go panics otherwise)
@@ -158,8 +171,8 @@ func (f *FnVC) next(st *State, x *ssa.Next) {
 		vv = Val{T: f.SC.Define("rv", f.mapVal(st, it.T, mt, f.mapKey(kv))), Typ: mt.Elem()}
 	} else {
 		kv = f.freshVal("rk", mt.Key())
-		f.assume(st, implies(ok, f.mapHas(st, it.T, mt, kv.T)))
-		vv = Val{T: f.SC.Define("rv", f.mapVal(st, it.T, mt, kv.T)), Typ: mt.Elem()}
+		f.assume(st, implies(ok, f.mapHas(st, it.T, mt, f.mapKey(kv))))
+		vv = Val{T: f.SC.Define("rv", f.mapVal(st, it.T, mt, f.mapKey(kv))), Typ: mt.Elem()}
 	}
 	f.assumeKnown(st, vv)
 	kv.Typ, vv.Typ = kt, vt
